@@ -1515,6 +1515,11 @@ hdf_read_ndgs(NC *handle)
             free(dimsizes);
             free(vardims);
             free(scaletypes);
+            /* the error cleanup at 'done' frees these again if a later data set fails */
+            labelbuf = scalebuf = unitbuf = formatbuf = NULL;
+            dimsizes   = NULL;
+            vardims    = NULL;
+            scaletypes = NULL;
 
             /*
              * Look for the next DataSet
